@@ -32,7 +32,7 @@ def gen_cases(tier, seed):
         cases.append({"kind": "qha", "eos": EOSS[i % 3], "E0": float(rng.uniform(-50, 5)), "B0_GPa": float(10 ** rng.uniform(np.log10(20), np.log10(300))), "Bp": float(rng.uniform(3, 6)),
                       "V0": float(10 ** rng.uniform(1, np.log10(300))), "nvol": int(rng.integers(5, 16)), "spread": float(rng.uniform(0.03, 0.10)),
                       "pressure": [None, 0.0, 5.0, -5.0, 30.0][rng.integers(5)], "el2d": bool(rng.integers(2)), "tmax_mode": ["none", "mid"][rng.integers(2)], "tgrid": ["uniform", "nonuniform"][rng.integers(2)], "vgrid": ["cover", "cover", "short", "high"][rng.integers(4)],
-                      "vorder": ["ascending", "descending", "shuffled"][int(rng.integers(3))], "alpha": float(rng.uniform(1e-5, 8e-5)), "a2": float(rng.uniform(1e-7, 2e-6)), "cB": float(rng.uniform(1e-5, 2e-4)), "seed": int(rng.integers(10 ** 6)), "_cost": 3})
+                      "vorder": ["ascending", "descending", "shuffled"][int(rng.integers(3))], "eshift": [0.0, 0.0, -1.0e3, -7.4e4, 2.3e4][int(rng.integers(5))], "alpha": float(rng.uniform(1e-5, 8e-5)), "a2": float(rng.uniform(1e-7, 2e-6)), "cB": float(rng.uniform(1e-5, 2e-4)), "seed": int(rng.integers(10 ** 6)), "_cost": 3})
     return cases
 
 
@@ -115,6 +115,12 @@ def run_case(c):
         vols = vols[np.random.default_rng(c["seed"] + 1).permutation(len(vols))]
     obs["vorder_" + vorder] = 1
     F = np.array([[eos(v, E0T[i], B0T[i], Bp, V0T[i]) for v in vols] for i in range(len(T))])  # eV, exactly an EOS in V at every T
+    # the zero of energy is arbitrary (all-electron totals, large cells: 1e4..1e5 eV): the same constant added to every energy must come back in
+    # the Gibbs energy and nowhere else
+    eshift = float(c.get("eshift", 0.0))
+    F = F + eshift
+    E0T = E0T + eshift
+    obs["eshift_%g" % eshift] = 1
     P = c["pressure"]
     Fin = F.copy()
     if P is not None:
@@ -129,7 +135,8 @@ def run_case(c):
     cv = 20.0 * (1 - np.exp(-T[:, None] / 300.0)) * np.ones_like(F)
     ent = 30.0 * (T[:, None] / 500.0) * np.ones_like(F)
     t_max = None if c["tmax_mode"] == "none" else float(T[len(T) // 2])
-    feat = dict(pressure=P, el2d=c["el2d"], nvol=c["nvol"], t_max=t_max, tgrid=c.get("tgrid", "uniform"), vorder=vorder)
+    big_offset = bool(abs(eshift) >= 1e3)
+    feat = dict(pressure=P, el2d=c["el2d"], nvol=c["nvol"], t_max=t_max, tgrid=c.get("tgrid", "uniform"), vorder=vorder, large_energy_offset=big_offset)
     obs["tgrid_" + c.get("tgrid", "uniform")] = 1
     obs["vgrid_" + c.get("vgrid", "cover")] = 1
     try:
@@ -147,8 +154,12 @@ def run_case(c):
         return {"error": "harness: fewer than 3 temperature points returned"}
     k = min(n, len(T))
     ev_ = np.abs(vt[:k] - V0T[:k]).max() / V0
-    eg = np.abs(gt[:k] - E0T[:k]).max() / max(abs(E0), B0 * V0 * 1e-2)
+    eg = np.abs(gt[:k] - E0T[:k]).max() / max(abs(E0), abs(E0 + eshift), B0 * V0 * 1e-2)
     eb = np.abs(bt[:k] - B0T[:k] * EVAngstromToGPa).max() / c["B0_GPa"]
+    if big_offset:
+        # the recorded finding is a loss of PRECISION of this size (measured on the unchanged tree: V0 2e-3, G 3e-4 of |E|, B0 14 %); anything beyond it
+        # is not that finding and is reported
+        feat["within_known_precision_envelope"] = bool(ev_ < 6e-3 and eg < 1e-3 and eb < 0.3)
     if ev_ > 1e-7:
         bad("qha_volume", "equilibrium volume differs from the generating V0(T) by %.3e (relative)" % ev_, **feat)
     if eg > 1e-7:
@@ -160,7 +171,17 @@ def run_case(c):
     m = len(te)
     want_te = np.array([0.0] + [(V0T[i + 1] - V0T[i - 1]) / (T[i + 1] - T[i - 1]) / V0T[i] for i in range(1, m)])
     obs["n_expansion"] = 1
-    if np.abs(te - want_te).max() > 1e-6 * np.abs(want_te).max():
+    # (the quotient amplifies the relative precision of the fitted volumes, ~1e-8, by 2/(T[i+1]-T[i-1]): with the 8 K steps of the unequal grid
+    # a fixed 1e-6 of the largest value is below that - thorough tier, seed 0)
+    tol_te = np.array([1e-30] + [2e-8 / (T[i + 1] - T[i - 1]) + 1e-6 * abs(want_te[i]) for i in range(1, m)])
+    # every temperature gets its own fit: with a strictly increasing generating V0(T) two consecutive temperatures can never come back with
+    # bit-identical (volume, Gibbs energy, bulk modulus) unless they were served by one fit
+    shared = [i for i in range(1, k) if vt[i] == vt[i - 1] and gt[i] == gt[i - 1] and bt[i] == bt[i - 1] and V0T[i] != V0T[i - 1]]
+    obs["n_rows_checked_for_own_fit"] = obs.get("n_rows_checked_for_own_fit", 0) + k - 1
+    if shared:
+        bad("qha_rows_share_one_fit", "temperatures %s come back with bit-identical volume, Gibbs energy and bulk modulus as the temperature before although the input rows differ "
+            "(generating V0 differs by %.3e): they were not fitted on their own" % (np.round(T[shared][:6], 2).tolist(), abs(V0T[shared[0]] - V0T[shared[0] - 1])), eshift=eshift, **{k_: v_ for k_, v_ in feat.items() if k_ != "large_energy_offset"})
+    if (np.abs(te - want_te) > tol_te)[1:].any():
         bad("qha_thermal_expansion", "thermal expansion differs from the documented central difference of V0(T) by %.3e (max %.3e)" % (np.abs(te - want_te).max(), np.abs(want_te).max()), **feat)
     want_cp = np.array([0.0] + [2 * c["a2"] * T[i] * EvTokJmol * 1000 for i in range(1, len(cp))])
     if np.abs(cp - want_cp).max() > 1e-5 * max(np.abs(want_cp).max(), 1e-12):
